@@ -230,8 +230,15 @@ def run_cov(case):
     # matrix
     with under_test("RunningCovarianceMatrix"):
         rcm = u.RunningCovarianceMatrix(k)
+        if case.get("empty_chunk") == "first":
+            rcm.update_from_it(*[[] for _ in series])     # nothing passed
         if case.get("feed") == "it":
-            rcm.update_from_it(*series)
+            h_ = len(series[0]) // 2
+            rcm.update_from_it(*[s_[:h_] for s_ in series])
+            if case.get("empty_chunk") == "middle":
+                import numpy as _np
+                rcm.update_from_it(*[_np.array(s_[h_:h_]) for s_ in series])
+            rcm.update_from_it(*[s_[h_:] for s_ in series])
         elif case.get("feed") == "it_gen":
             rcm.update_from_it(*[(v for v in s_) for s_ in series])
         elif case.get("feed") == "it_array":
@@ -377,7 +384,9 @@ def cov_strategy(draw):
                                             st.integers(0, 3)).map(list),
                                   max_size=3)),
             "discrete": draw(st.sampled_from([None, None, 1, 4])),
-            "scribble": draw(st.booleans())}
+            "scribble": draw(st.booleans()),
+            "empty_chunk": draw(st.sampled_from([None, None, "first",
+                                                 "middle"]))}
 
 
 @st.composite
